@@ -77,14 +77,16 @@ CLAIMED.update({
             "shows that refusals coincide with requests outside the published range; the definition is built over all "
             "publications, so buffer clearing cannot matter. An inductive step (one request or publication from an arbitrary "
             "buffer state satisfying the clearing invariant) extends this to histories of any length. Reals stand in for "
-            "floats.",
+            "floats; missing values (nan / masked cells) are covered by dependency-set payloads: the delivered value is "
+            "computed from exactly the publications the definition uses.",
             "DESIGN.md section 4, C11"),
     "C13": (LINK,
             "For chains of 1-3 DelayFixed/DelayToPull(n<=3)/DelayToPush adapters mixed with Scale, symbolic delays, gaps and "
             "non-decreasing requests: the time arriving at the source output equals the composition of the documented "
             "shifts in pull order (z3 refutes inequality on every path) and the delivered payload is the source's payload "
-            "for that time; inside real Composition runs the same equality links the driver's scheduling time to the "
-            "actual request.",
+            "for that time, also for requests issued from inside a publication notification (push-type consumer); inside "
+            "real Composition runs and one-step families the same equality links the driver's scheduling time to the actual "
+            "request, with the shifts computed by the harness itself (not by the adapters' with_delay).",
             "DESIGN.md section 4, C13"),
 })
 
@@ -106,7 +108,8 @@ CLAIMED.update({
             "a twin adapter, and 'average outside the range of contributing values'; fully symbolic gaps only in the "
             "thorough tier, where 'unknown' answers are counted and excluded. An inductive step (one pull from an arbitrary "
             "adapter state: previous pull times and buffer satisfying the clearing invariant) covers histories of any "
-            "length for the integral claim.",
+            "length for the integral claim. Missing values: with dependency-set payloads the delivered value depends on "
+            "exactly the publications the integral over [p0,p1] depends on (no leak through zero weights).",
             "DESIGN.md section 4, C12"),
 })
 
